@@ -76,24 +76,26 @@ structure Store where
 def Store.fault? (s : Store) : Option Nat := (s.faults.getD s.calls none)
 def Store.tick (s : Store) : Store := { s with calls := s.calls + 1 }
 
+/-- what `find_credentials` of the three stores collects (before the "empty means NoCredentials" step) -/
+def foundRaw (kind : StoreKind) (items : List Passkey) (ids : Option (List Bytes)) (rp : Bytes) : List Passkey :=
+  match kind with
+  | .memoryMap =>
+    match ids with
+    | none => []
+    | some l => l.filterMap (fun id => items.find? (fun p => p.credId == id))
+  | .singleSlot =>
+    match ids with
+    | some l =>
+      match l.findSome? (fun id => (items.head?).filter (fun p => p.credId == id && p.rpId == rp)) with
+      | some p => [p]
+      | none => []
+    | none => ((items.head?).filter (fun p => p.rpId == rp)).toList
+  | .reference _ =>
+    items.filter (fun p => p.rpId == rp && (match ids with | none => true | some l => l.any (· == p.credId)))
+
 /-- `find_credentials` of the three stores, without faults -/
 def findRaw (kind : StoreKind) (items : List Passkey) (ids : Option (List Bytes)) (rp : Bytes) : Except Nat (List Passkey) :=
-  let found : List Passkey :=
-    match kind with
-    | .memoryMap =>
-      match ids with
-      | none => []
-      | some l => l.filterMap (fun id => items.find? (fun p => p.credId == id))
-    | .singleSlot =>
-      match ids with
-      | some l =>
-        match l.findSome? (fun id => (items.head?).filter (fun p => p.credId == id)) with
-        | some p => [p]
-        | none => []
-      | none => items.head?.toList
-    | .reference _ =>
-      items.filter (fun p => p.rpId == rp && (match ids with | none => true | some l => l.any (· == p.credId)))
-  if found.isEmpty then .error eNoCredentials else .ok found
+  if (foundRaw kind items ids rp).isEmpty then .error eNoCredentials else .ok (foundRaw kind items ids rp)
 
 def saveRaw (kind : StoreKind) (items : List Passkey) (p : Passkey) : List Passkey :=
   match kind with
